@@ -52,6 +52,23 @@ class WriterFacts:
             raise AnalysisError('%s.create_instance outside the interpreted fragment: %s' % (cls, u))
         self.text = rv
         self.doc = doc.doc_of(rv)
+        # a field that is present or absent depending on whether some VALUE is None (an optional parameter of a line-formatting
+        # helper) is outside the writer fragment: the analysis cannot tell which callers pass None
+        def none_tests(items):
+            for x in items:
+                if isinstance(x, doc.Alt):
+                    c = x.cond
+                    while c[0] == 'not':
+                        c = c[1]
+                    if c[0] == 'cmp' and c[1] in ('Is', 'IsNot', 'Eq', 'NotEq') and NONE in (c[2], c[3]) and (c[2] if c[3] == NONE else c[3])[0] not in ('const',):
+                        yield c
+                    yield from none_tests(x.a)
+                    yield from none_tests(x.b)
+                elif isinstance(x, doc.Rep):
+                    yield from none_tests(x.items)
+        nt = list(none_tests(self.doc))
+        if nt:
+            raise AnalysisError('%s.create_instance: a part of the instance text depends on whether %s is None (optional field of a formatting helper)' % (cls, show((nt[0][2] if nt[0][3] == NONE else nt[0][3]))[:60]))
         self.lines, self.problems = doc.lines_of(self.doc)
 
     def params_in(self, t):
@@ -126,6 +143,14 @@ def nonempty_polarity(cond):
     c = cond
     while c[0] == 'not':
         neg, c = not neg, c[1]
+    if c[0] == 'bool' and c[1] == 'and' and not neg:
+        # `x is not None and len(x) > 0`: the None test only protects the emptiness test of the same list
+        rest = [y for y in c[2] if not (y[0] == 'cmp' and y[1] in ('IsNot', 'NotEq') and y[3] == NONE)]
+        nones = [y[2] for y in c[2] if y[0] == 'cmp' and y[1] in ('IsNot', 'NotEq') and y[3] == NONE]
+        if len(rest) == 1 and nones:
+            pol_, lst_ = nonempty_polarity(rest[0])
+            if pol_ == 1 and all(n_ == lst_ for n_ in nones):
+                return pol_, lst_
     pol, lst = 0, None
     if c[0] == 'cmp' and c[2][0] == 'call' and c[2][1] == S('len') and len(c[2][2]) == 1 and c[3] in (C(0), C(1)):
         lst = c[2][2][0]
